@@ -41,7 +41,7 @@ def run_job(job, timeout):
     try:
         p = subprocess.run(  # noqa: S603
             [PY, "-X", "faulthandler", "-m", "twzmon.worker", jpath, out],
-            env=worker_env(job.get("hashseed", 0)),
+            env=dict(worker_env(job.get("hashseed", 0)), **{str(k): str(v) for k, v in (job.get("env") or {}).items()}),
             cwd=ROOT,
             capture_output=True,
             text=True,
